@@ -48,8 +48,12 @@ mod smoke {
         assert!(!a.is_some());
         kani::cover!(true);
     }
+    fn fixed_random_state() -> std::hash::RandomState {
+        unsafe { core::mem::transmute::<[u64; 2], std::hash::RandomState>([0x0706050403020100, 0x0f0e0d0c0b0a0908]) }
+    }
     #[kani::proof]
     #[kani::unwind(6)]
+    #[kani::stub(std::hash::RandomState::new, fixed_random_state)]
     fn smoke_map1() {
         let k1 = U256::from_limbs([1, 0, 0, 0]);
         let mut m: crate::primitives::HashMap<U256, U256> = Default::default();
